@@ -49,6 +49,7 @@ var Prop = &engine.Prop{
 	Kinds: []engine.Kind{
 		{Name: "faults", Quick: 8000, Thorough: 600000, Fn: faultCase},
 		{Name: "server", Quick: 16, Thorough: 640, Fn: serverCase},
+		{Name: "tcp-flush", Quick: 24, Thorough: 960, Fn: tcpFlushCase},
 	},
 	Floors: map[string]int64{
 		"sessions":                       2000,
@@ -64,6 +65,7 @@ var Prop = &engine.Prop{
 		"blocked_write_sessions":         100,
 		"frames_delivered":               2000,
 		"server_rounds":                  4,
+		"tcp_flush_rounds":               4,
 		"server_surplus_connections_cut": 4,
 	},
 }
@@ -103,6 +105,7 @@ type fakeConn struct {
 	peerClosed  bool
 	readTimeout bool
 	closed      bool
+	closeErr    bool // Close() closes the connection but reports an error (as a TLS close_notify can)
 	closeCount  int
 	peerReads   bool
 	received    []byte
@@ -175,6 +178,9 @@ func (c *fakeConn) Close() error {
 	}
 	c.closed = true
 	c.cond.Broadcast()
+	if c.closeErr {
+		return errors.New("fake: close_notify could not be written")
+	}
 	return nil
 }
 
@@ -349,6 +355,10 @@ func faultCase(k *engine.Case) {
 	for i := 0; i < ns; i++ {
 		x := &sess{id: i, peerReads: r.Intn(4) != 0}
 		x.conn = newFakeConn(i, x.peerReads, clk)
+		if r.Intn(5) == 0 {
+			x.conn.closeErr = true
+			k.Count("sessions_whose_conn_close_reports_error", 1)
+		}
 		if r.Intn(2) == 0 {
 			mgr.Do(x.conn)
 		} else {
@@ -1090,6 +1100,111 @@ func serverCase(k *engine.Case) {
 	}
 	srv.Close()
 	// let the accept loop and session goroutines drain before the next case
+	for i := 0; i < 200 && Q.CountStacks("stcp.") > 0; i++ {
+		time.Sleep(5 * time.Millisecond)
+	}
+}
+
+// ---------------------------------------------------------------- flush over a real TCP connection
+
+type flushHandler struct{ exits atomic.Int32 }
+
+func (h *flushHandler) Read(s *stcp.Session) error {
+	var b [1]byte
+	return s.Read(b[:])
+}
+func (h *flushHandler) OnExit(s *stcp.Session) { h.exits.Add(1) }
+
+// tcpFlushCase: a session on a real loop-back TCP connection queues more data than the socket
+// buffers hold and is closed locally; the peer reads slowly to the end. Everything Send
+// accepted must arrive, in order, before the connection ends (an abortive close - RST -
+// would discard what the kernel had not delivered yet). Real time: the guard is inconclusive.
+func tcpFlushCase(k *engine.Case) {
+	r := k.R
+	ln, err := net.Listen("tcp", "127.0.0.1:0")
+	if err != nil {
+		k.Inconclusive("cannot listen on loop-back: " + err.Error())
+		return
+	}
+	defer ln.Close()
+	type acc struct {
+		c   net.Conn
+		err error
+	}
+	ach := make(chan acc, 1)
+	go func() { c, e := ln.Accept(); ach <- acc{c, e} }()
+	cli, err := net.DialTimeout("tcp", ln.Addr().String(), 5*time.Second)
+	if err != nil {
+		k.Inconclusive("cannot dial loop-back: " + err.Error())
+		return
+	}
+	defer cli.Close()
+	a := <-ach
+	if a.err != nil {
+		k.Inconclusive("accept failed: " + a.err.Error())
+		return
+	}
+	h := &flushHandler{}
+	mgr := stcp.NewSessionMgr(h, stcp.WithReadTimeout(90*time.Second), stcp.WithWriteTimeout(90*time.Second))
+	mgr.SetLogger(quietLogger)
+	s := stcp.NewSession(mgr, a.c)
+	s.Start()
+	frames := 64 + r.Intn(200)
+	fsize := []int{4 << 10, 16 << 10, 32 << 10, 64 << 10}[r.Intn(4)]
+	lateStart := time.Duration(r.Intn(40)) * time.Millisecond
+	k.Logf("real TCP session: %d frames of %d bytes (%d KiB) queued, then Close(); the peer starts reading after %v and pauses 1 ms every 64 KiB", frames, fsize, frames*fsize>>10, lateStart)
+	k.Nontrivial()
+	var want []byte
+	accepted := 0
+	for i := 0; i < frames; i++ {
+		f := make([]byte, fsize)
+		for j := range f {
+			f[j] = byte(i*31 + j)
+		}
+		if err := s.Send(f); err == nil {
+			want = append(want, f...)
+			accepted++
+		}
+	}
+	s.Close()
+	time.Sleep(lateStart)
+	cli.SetReadDeadline(time.Now().Add(60 * time.Second))
+	got := make([]byte, 0, len(want))
+	buf := make([]byte, 64<<10)
+	var rerr error
+	for {
+		n, e := cli.Read(buf)
+		got = append(got, buf[:n]...)
+		if e != nil {
+			rerr = e
+			break
+		}
+		time.Sleep(time.Millisecond)
+	}
+	if ne, ok := rerr.(net.Error); ok && ne.Timeout() {
+		k.Inconclusive("peer read timed out (loaded machine)")
+		return
+	}
+	k.Count("tcp_flush_rounds", 1)
+	k.Count("tcp_flush_bytes", int64(len(got)))
+	k.Logf("peer received %d of %d accepted bytes, read ended with %v", len(got), len(want), rerr)
+	if !bytes.Equal(got, want) {
+		n := len(got)
+		if n > len(want) {
+			n = len(want)
+		}
+		prefix := bytes.Equal(got[:n], want[:n])
+		k.Fail("flush-incomplete", "session closed locally on a real TCP connection: Send accepted %d frames (%d bytes) but the peer received %d bytes (a correct prefix: %v) before the connection ended with %v", accepted, len(want), len(got), prefix, rerr)
+		return
+	}
+	// the session must have ended
+	end := time.Now().Add(20 * time.Second)
+	for (h.exits.Load() != 1 || mgr.ConnCount() != 0) && time.Now().Before(end) {
+		time.Sleep(2 * time.Millisecond)
+	}
+	if h.exits.Load() != 1 || mgr.ConnCount() != 0 {
+		k.Fail("session-not-ended", "after the flush and the local Close the session did not end: OnExit ran %d times, ConnCount=%d", h.exits.Load(), mgr.ConnCount())
+	}
 	for i := 0; i < 200 && Q.CountStacks("stcp.") > 0; i++ {
 		time.Sleep(5 * time.Millisecond)
 	}
